@@ -1,4 +1,5 @@
 import BstreamVerif.Model.Joining
+import BstreamVerif.Facts
 /-!
 # C13 — Stream bounds and filters: stop block inclusive and final, filters only remove
 
@@ -334,5 +335,18 @@ theorem stop_block_is_last (cfg : SCfg) (hubCfg : Forkable.Config) (bundles fork
     rcases he with he | rfl
     · have := hpre e he; omega
     · exact hn
+
+/-- **tie by translation**: `StepType.Matches` of steps.go and the step constants, translated from the source on every
+    run, are the model's `Step.matchesMask` and `Step.code` (any common bit — not all bits of the mask) -/
+theorem step_matches_translated (s : Step) (mask : Nat) :
+    BstreamVerif.Facts.Gen.stepMatches s.code mask = s.matchesMask mask := by
+  unfold BstreamVerif.Facts.Gen.stepMatches Step.matchesMask
+  by_cases h : (s.code &&& mask) = 0 <;> simp [h]
+
+theorem step_codes_translated :
+    BstreamVerif.Facts.Gen.cStepNew = Step.new.code ∧ BstreamVerif.Facts.Gen.cStepUndo = Step.undo.code ∧
+    BstreamVerif.Facts.Gen.cStepIrreversible = Step.irreversible.code ∧
+    BstreamVerif.Facts.Gen.cStepStalled = Step.stalled.code ∧
+    Step.newIrreversible.code = BstreamVerif.Facts.Gen.cStepNew ||| BstreamVerif.Facts.Gen.cStepIrreversible := by decide
 
 end BstreamVerif.Props.C13
